@@ -63,7 +63,7 @@ def stepfns(ctx, R):
         R.check(fl is not None and fl.equals(Num.atom(("floor", (x / s).key())) * s), "C14.STEPFNS", "floor", where(f), "floor(x) == floor(x/s)*s", "step nicer floor(x) is %s" % fl)
         R.check(ce is not None and ce.equals(Num.atom(("ceil", (x / s).key())) * s), "C14.STEPFNS", "ceil", where(f), "ceil(x) == ceil(x/s)*s", "step nicer ceil(x) is %s" % ce)
     else:
-        R.bad("C14.STEPFNS", "shape", where(f), "niceStep(s) does not return {'floor','ceil'}: %s" % show(r))
+        R.undecided("C14.STEPFNS", "shape", where(f), "niceStep(s) does not return a {'floor','ceil'} pair the recogniser understands: %s" % show(r))
     ev = new_eval(P)
     ev.assume("truth(s)", False)
     st = ev.new_state(f)
@@ -205,8 +205,11 @@ def time_nice(ctx, R):
     for name, meth, sign in (("scale.time_nice_floor", "floor", "-"), ("scale.time_nice_ceil", "ceil", "+")):
         h = P.func(name)
         ws = [n for n in h.node.body if isinstance(n, (ast.While, ast.For))]
-        if len(ws) != 1 or not isinstance(ws[0], ast.While):
-            R.bad("C14.TIME", name + " loop", where(h), "the skip search is not a single unbounded while-loop: a bounded search stops on a non-round value when more boundaries must be skipped")
+        if len(ws) == 1 and isinstance(ws[0], ast.For):
+            R.bad("C14.TIME", name + " loop", where(h), "the skip search is a bounded for-loop: it stops on a non-round value when more boundaries must be skipped")
+            continue
+        if len(ws) != 1:
+            R.undecided("C14.TIME", name + " loop", where(h), "the skip search is not a single while-loop in the function body: the loop recogniser does not apply")
             continue
         w = ws[0]
         date_p, skipped_p, interval_p = h.params[:3]
